@@ -189,4 +189,6 @@ class C04(common.Prop):
         return 0 if (nodes == d['nodes'] and edges == d['edges']) else 1
 
 
+C04.fail_text.update({n + 10 * k: C04.fail_text[n] + ' [inside known defect class %s, but not with the analysed behaviour]' % c
+                     for k, c in CLASSES_C04.items() for n in (1, 2)})
 PROP = C04()
